@@ -620,6 +620,8 @@ impl S3 for FileSystem {
         }
 
         let object_path = self.get_object_path(&bucket, &key)?;
+        // an object whose side files cannot be written is refused before anything is written
+        self.check_side_file_names(&bucket, &key)?;
         let mut file_writer = self.prepare_file_write(&object_path)?;
 
         let mut md5_hash = Md5::new();
